@@ -19,7 +19,10 @@ def classify_exc(e):
     code = e.message.code if isinstance(e, Errors.CompileException) else None
     return {"exc": type(e).__name__, "stage": stage, "where": funcs[-1] if funcs else "?", "code": code, "msg": str(e)[:160]}
 
+sys.set_int_max_str_digits(0)
 def jsonable(v):
+    if isinstance(v, int) and not isinstance(v, bool) and abs(v) > (1 << 80):
+        return {"big": 1}
     if isinstance(v, float):
         return {"f": v.hex()} if v == v and v not in (float("inf"), float("-inf")) else {"f": str(v)}
     if isinstance(v, bool):
@@ -39,15 +42,28 @@ def unjson(v):
         return [unjson(x) for x in v]
     return v
 
+import signal
+class _Timeout(BaseException):
+    pass
+def _alarm(signum, frame):
+    raise _Timeout()
+signal.signal(signal.SIGALRM, _alarm)
+sys.setrecursionlimit(3000)
+
 def run(job):
     out = io.StringIO()
     res = {}
     try:
+        signal.setitimer(signal.ITIMER_REAL, 20.0)
         with contextlib.redirect_stdout(out), contextlib.redirect_stderr(out):
             r = Compiler.Compiler().Compile(job["src"], dict(job.get("opts", {})))
+        signal.setitimer(signal.ITIMER_REAL, 0)
         if r is None:
             return {"accept": False, "how": {"exc": None, "stage": "returned-none"}}
+    except _Timeout:
+        return {"accept": False, "how": {"exc": "Timeout", "stage": "compile"}}
     except BaseException as e:
+        signal.setitimer(signal.ITIMER_REAL, 0)
         return {"accept": False, "how": classify_exc(e), "stdout": out.getvalue()[-200:]}
     res["accept"] = True
     want = job.get("want", [])
@@ -66,14 +82,21 @@ def run(job):
             res["link_error"] = classify_exc(e); return res
         for c in job["calls"]:
             try:
+                signal.setitimer(signal.ITIMER_REAL, float(job.get("call_timeout", 3.0)))
                 with contextlib.redirect_stdout(out):
                     for g, v in c.get("globals", {}).items():
                         vm.SetGlobal(g, unjson(v))
                     rv = vm.Invoke(c["fn"], **{k: unjson(v) for k, v in c.get("args", {}).items()})
                     gl = {g: jsonable(vm.GetGlobal(g)) for g in c.get("read_globals", [])}
+                signal.setitimer(signal.ITIMER_REAL, 0)
                 res["calls"].append({"ret": jsonable(rv), "globals": gl})
+            except _Timeout:
+                res["calls"].append({"fail": {"exc": "Timeout", "stage": "run", "msg": "no result within the time limit"}})
+                break
             except BaseException as e:
+                signal.setitimer(signal.ITIMER_REAL, 0)
                 res["calls"].append({"fail": classify_exc(e)})
+                break
     return res
 
 if __name__ == "__main__":
